@@ -212,7 +212,8 @@ func (b *Box) maybeGC() {
 
 	epochsAfterWhichWeGC := b.GCExpire / b.GCSweep
 
-	if time.Duration(now-lastGC) > epochsAfterWhichWeGC {
+	// Collect at most once per expiry period
+	if time.Duration(now-lastGC) < epochsAfterWhichWeGC {
 		return
 	}
 
